@@ -15,8 +15,8 @@ ASSUMPTIONS = ['ridges are 3 map rows thick with the maximum in the middle row (
                'with end-point responses (overlapping one ridge pixel at each end) the ridge is at least 9 px long', 'expected end points ds*(x0-2), ds*(x1+2) within 1.5*ds; vertical position within 0.9*ds; heights within 0.5*ds',
                'lines of the two runs of the rotation clause are matched by nearest end points (the engine orders lines with random jitter)']
 N = {'quick': 340, 'thorough': 17000}
-CLASSES = ['maps', 'maps', 'maps_sloped', 'maps_endpoints', 'maps_many', 'detect_rot', 'detect_rot', 'maps_short', 'detect_columns', 'columns_separator', 'detect_adaptive']
-REQUIRED = ['repeated_decodes_of_one_array', 'adaptive_detections', 'adaptive_proposals', 'rotated_pages_with_sides_not_multiple_of_ds', 'separator_pages', 'column_pages', 'same_row_pairs', 'parse_calls', 'ridges_checked', 'sloped_ridges', 'endpoint_ridges', 'short_ridges', 'detect_pairs', 'rotated_lines_compared', 'rot1', 'rot2', 'rot3', 'regions_compared']
+CLASSES = ['maps', 'maps', 'maps_sloped', 'maps_endpoints', 'maps_many', 'detect_rot', 'detect_rot', 'maps_short', 'detect_columns', 'columns_separator', 'detect_adaptive', 'maps_parallel_sloped', 'maps_tiny_heights', 'maps_border']
+REQUIRED = ['tiny_height_outlines', 'parallel_sloped_ridges', 'border_ridges', 'repeated_decodes_of_one_array', 'adaptive_detections', 'adaptive_proposals', 'rotated_pages_with_sides_not_multiple_of_ds', 'separator_pages', 'column_pages', 'same_row_pairs', 'parse_calls', 'ridges_checked', 'sloped_ridges', 'endpoint_ridges', 'short_ridges', 'detect_pairs', 'rotated_lines_compared', 'rot1', 'rot2', 'rot3', 'regions_compared']
 SHARDS = {'quick': 8, 'thorough': 16}
 # 'within one pixel': the engine's un-rotation uses W - y where the exact inverse is W - 1 - y (exactly 1 px apart); outlines are float32
 # arrays, so the observed difference can exceed 1 by float32 round-off (1.0000038 seen at x = 290 in the thorough tier)
@@ -95,6 +95,37 @@ def gen(rng, i, ctx):
         strokes = [('h', y, int(rng.integers(40, 120)), int(rng.integers(Wimg - 250, Wimg - 40))) for y in ys]
         return {'cls': cls, 'size': [Himg, Wimg], 'strokes': strokes, 'asc': int(rng.integers(22, 38)), 'desc': int(rng.integers(5, 9)), 'downsample': float(rng.choice([7, 7.5, 6.9]))}
     H, W = int(rng.integers(40, 401)), int(rng.integers(60, 601))
+    if cls == 'maps_parallel_sloped':
+        # parallel sloped ridges 16-22 rows apart whose rise over their length exceeds that distance: their bounding boxes overlap
+        H, W = int(rng.integers(140, 300)), int(rng.integers(340, 600))
+        slope = float(rng.choice([-1, 1])) * float(rng.uniform(0.06, 0.08))
+        x0, x1 = int(rng.integers(5, 30)), int(rng.integers(W - 40, W - 6))
+        rise = abs(slope) * (x1 - x0)
+        ridges, y = [], 12 + (rise if slope < 0 else 0)
+        while y + (rise if slope > 0 else 0) < H - 12 and len(ridges) < 5:
+            ridges.append({'x0': x0 + int(rng.integers(0, 6)), 'x1': x1 - int(rng.integers(0, 6)), 'y0': float(y), 'slope': slope, 'asc': float(rng.uniform(3, 7)), 'desc': float(rng.uniform(1, 4)),
+                           'p': float(rng.uniform(0.6, 1.0)), 'endpoints': False})
+            y += int(rng.integers(16, 23))
+        return {'cls': cls, 'size': [H, W], 'ridges': ridges, 'ds': int(rng.choice([1, 2, 4]))}
+    if cls == 'maps_tiny_heights':
+        # ascender / descender responses below one map pixel on flat ridges
+        ridges, y = [], 14
+        while y < H - 14 and len(ridges) < 4:
+            x0 = int(rng.integers(4, max(5, W // 3)))
+            ridges.append({'x0': x0, 'x1': int(rng.integers(x0 + 12, W - 4)), 'y0': float(y), 'slope': 0.0, 'asc': float(rng.choice([0.0, 0.25, 0.5, 0.75])), 'desc': float(rng.choice([0.0, 0.25, 0.5])),
+                           'p': float(rng.uniform(0.6, 1.0)), 'endpoints': False})
+            y += int(rng.integers(18, 40))
+        return {'cls': cls, 'size': [H, W], 'ridges': ridges, 'ds': int(rng.choice([2, 4, 8]))}
+    if cls == 'maps_border':
+        # a ridge two rows below the top border and a stronger one two rows above the bottom border, sharing columns (and one in the middle)
+        H = int(rng.integers(60, 200))
+        xa, xb = int(rng.integers(5, W // 3)), int(rng.integers(W // 2, W - 5))
+        pw, ps = float(rng.uniform(0.42, 0.5)), float(rng.uniform(0.9, 1.0))
+        top_weak = bool(rng.random() < 0.5)
+        ridges = [{'x0': xa, 'x1': xb, 'y0': 1.0, 'slope': 0.0, 'asc': 0.5, 'desc': 3.0, 'p': pw if top_weak else ps, 'endpoints': False},
+                  {'x0': xa + 3, 'x1': xb - 2, 'y0': float(H // 2), 'slope': 0.0, 'asc': 5.0, 'desc': 3.0, 'p': 0.8, 'endpoints': False},
+                  {'x0': xa + 1, 'x1': xb + 1, 'y0': float(H - 2), 'slope': 0.0, 'asc': 4.0, 'desc': 0.5, 'p': ps if top_weak else pw, 'endpoints': False}]
+        return {'cls': cls, 'size': [H, W], 'ridges': ridges, 'ds': int(rng.choice([1, 2, 4]))}
     ridges = []
     y = int(rng.integers(12, 20))
     nmax = 8 if cls == 'maps_many' else int(rng.integers(1, 6))
@@ -137,8 +168,9 @@ def build_maps(case):
         maps[ys - 1, xs, 2] = np.maximum(maps[ys - 1, xs, 2], 0.6 * r['p'])
         maps[ys + 1, xs, 2] = np.maximum(maps[ys + 1, xs, 2], 0.6 * r['p'])
         for dy in (-2, -1, 0, 1, 2):
-            maps[ys + dy, xs, 0] = r['asc']
-            maps[ys + dy, xs, 1] = r['desc']
+            ok = (ys + dy >= 0) & (ys + dy < H)              # (ridges next to the border)
+            maps[(ys + dy)[ok], xs[ok], 0] = r['asc']
+            maps[(ys + dy)[ok], xs[ok], 1] = r['desc']
         if r['endpoints']:
             maps[ys[0] - 1:ys[0] + 2, max(0, r['x0'] - 1):r['x0'] + 1, 3] = 1.0
             maps[ys[-1] - 1:ys[-1] + 2, r['x1']:r['x1'] + 2, 3] = 1.0
@@ -172,6 +204,10 @@ def check(case, mon, ctx):
         mon.count('ridges_checked')
         if r['slope'] != 0:
             mon.count('sloped_ridges')
+        if case['cls'] == 'maps_parallel_sloped':
+            mon.count('parallel_sloped_ridges')
+        if case['cls'] == 'maps_border' and (r['y0'] < 4 or r['y0'] > case['size'][0] - 5):
+            mon.count('border_ridges')
         if r['endpoints']:
             mon.count('endpoint_ridges')
         if r['x1'] - r['x0'] + 1 <= 9:
@@ -193,7 +229,8 @@ def check(case, mon, ctx):
         yref = r['y0'] + r['slope'] * (np.clip(bb[:, 0], r['x0'], r['x1']) - r['x0'])
         ey = float(np.abs(bb[:, 1] - yref).max())
         mon.observe_max('vertical_error_map_px', ey)
-        if ey > 0.9:      # rounding of a sloped ridge (0.5) + end-point compensation on a slope (2 * 0.08)
+        at_border = r['y0'] < 3 or r['y0'] > case['size'][0] - 4         # (the engine's 3x3 smoothing is one-sided at the border: up to one more row)
+        if ey > (0.9 if not at_border else 1.5):      # rounding of a sloped ridge (0.5) + end-point compensation on a slope (2 * 0.08)
             mon.violation('vertical-position-matches-the-map', dict(w, max_error=ey))
         ea, ed = float(hh[0] - r['asc']), float(hh[1] - r['desc'])
         mon.observe_max('height_error_map_px', max(abs(ea), abs(ed)))
@@ -203,6 +240,13 @@ def check(case, mon, ctx):
         tt = np.asarray(t[j], dtype=np.float64) / ds
         if tt[:, 1].min() > bb[:, 1].min() - 0.5 * hh[0] or tt[:, 1].max() < bb[:, 1].max() + 0.5 * hh[1]:
             mon.violation('outline-encloses-the-baseline-band', dict(w, outline=t[j]))
+        if case['cls'] == 'maps_tiny_heights':
+            # flat ridge: the outline is the band from max(1 px, ascender) above to max(1 px, descender) below the baseline, in image pixels
+            mon.count('tiny_height_outlines')
+            up, down = float(bb[:, 1].min() - tt[:, 1].min()) * ds, float(tt[:, 1].max() - bb[:, 1].max()) * ds
+            eu, ed_ = max(1.0, ds * r['asc']), max(1.0, ds * r['desc'])
+            if abs(up - eu) > 0.3 * ds + 1e-6 or abs(down - ed_) > 0.3 * ds + 1e-6:
+                mon.violation('outline-encloses-the-baseline-band', dict(w, outline_extends_px=[up, down], expected_px=[eu, ed_], note='heights below one map pixel'))
     # history: the SAME maps array decoded several times by a decoder with a non-default end-point weight gives the same lines every time
     m2 = maps.copy()
     for xs, ys in rows:
